@@ -112,7 +112,8 @@ def main():
     kreal, kcplx = 1.7, 1.1 + 0.35j
     cfg = [("laplace", "single_layer", "DP0", [None]), ("laplace", "double_layer", "P1", [None]),
            ("helmholtz", "single_layer", "P1", [kreal, kcplx, 0.8j, 1.2 - 0.3j]), ("helmholtz", "double_layer", "DP1", [kcplx, 1.3j, 0.9 - 0.35j]),
-           ("modified_helmholtz", "single_layer", "P1", [0.9]), ("modified_helmholtz", "double_layer", "DP0", [1.4]),
+           # (a complex omega is either rejected - "'omega' must be real." - or evaluated for that omega: never for another one)
+           ("modified_helmholtz", "single_layer", "P1", [0.9, 0.7 - 0.2j]), ("modified_helmholtz", "double_layer", "DP0", [1.4, 1.3 + 0.4j]),
            ("maxwell", "electric_field", "RWG", [kreal, kcplx]), ("maxwell", "magnetic_field", "RWG", [kcplx]),
            ("ff_helmholtz", "single_layer", "P1", [kreal, kcplx]), ("ff_helmholtz", "double_layer", "P1", [kreal, kcplx]),
            ("ff_maxwell", "electric_field", "RWG", [kreal, kcplx]), ("ff_maxwell", "magnetic_field", "RWG", [kreal])]
@@ -149,7 +150,7 @@ def main():
                     is_ff = fam.startswith("ff_")
                     kk = 0.0 if k is None else (1j * k if fam == "modified_helmholtz" else k)
                     kcls = "laplace" if k is None else ("real_k" if np.imag(kk) == 0 else ("imaginary_k" if np.real(kk) == 0 else "complex_k"))
-                    with ctx.guard(cid, "potential_value:%s.%s:%s" % (fam, op, kcls), allow=S.ALLOWED_REJECTIONS):
+                    with ctx.guard(cid, "potential_value:%s.%s:%s" % (fam, op, kcls), allow=S.ALLOWED_REJECTIONS + (("'omega' must be real.",) if (fam == "modified_helmholtz" and np.imag(k) != 0) else ())):
                         sp = S.make_space(api, grid, *KA[kind], **opts)
                         n = sp.global_dof_count
                         cplx = (vi % 2 == 1) or kind == "RWG"
